@@ -163,6 +163,27 @@ def main():
             bk = pf.in_units_bil_kcals_thou_tons_thou_tons_per_month()
             if not (rel(bk.kcals, req.kcals) and rel(bk.fat, req.fat) and rel(bk.protein, req.protein)):
                 bad("anchor:back_to_base", dict(par=par))
+        # the named wrappers are the generic conversion to their three target units - also for a series of small amounts
+        tiny = Food(np.array([2e-3, 3.3e-7, 41.0]), np.array([1e-4, 7.7e-8, 3.0]), np.array([5e-5, 1.1e-8, 2.0]),
+                    "billion kcals each month", "thousand tons each month", "thousand tons each month")
+        for wname, tgt in (("in_units_percent_fed", ("percent people fed",) * 3), ("in_units_billions_fed", ("billion people fed",) * 3),
+                           ("in_units_kcals_grams_grams_per_person", ("kcals per person per day", "grams per person per day", "grams per person per day")),
+                           ("in_units_kcals_equivalent", ("kcals per person per day", "effective kcals per person per day", "effective kcals per person per day")),
+                           ("in_units_bil_kcals_thou_tons_thou_tons_per_month", ("billion kcals", "thousand tons", "thousand tons"))):
+            try:
+                a, b = getattr(tiny, wname)(), tiny.in_units(*tgt)
+                rep["in_units_checks"] += 1
+                same_nums = all(np.all(np.abs(np.asarray(x, dtype=float) - np.asarray(y, dtype=float)) <= 1e-12 * np.abs(np.asarray(y, dtype=float)))
+                                for x, y in ((a.kcals, b.kcals), (a.fat, b.fat), (a.protein, b.protein)))
+                if not same_nums or list(a.units) != list(b.units):
+                    bad("wrapper:%s" % wname, dict(par=par))
+                # ... and a wrapper of a wrapper's result round-trips
+                back = a.in_units_bil_kcals_thou_tons_thou_tons_per_month()
+                if not all(np.all(np.abs(np.asarray(x, dtype=float) - np.asarray(y, dtype=float)) <= 1e-9 * np.abs(np.asarray(y, dtype=float)))
+                           for x, y in ((back.kcals, tiny.kcals), (back.fat, tiny.fat), (back.protein, tiny.protein))):
+                    bad("wrapper:RoundTrip:%s" % wname, dict(par=par))
+            except BaseException as ex:  # noqa
+                bad("wrapper:exception:%s" % wname, dict(exc=repr(ex)[:120]))
     json.dump(rep, open(sys.argv[2], "w"))
 
 
